@@ -26,7 +26,18 @@ func monitorParseFile(work string, shard int, line string, size, vbx, vby, outSi
 	num := func(f float32) string { return strconv.FormatFloat(float64(f), 'g', -1, 32) }
 	fmt.Fprintf(&sb, `<svg xmlns="http://www.w3.org/2000/svg" width="%s" height="%s" viewBox="%s %s %s %s">`+"\n", num(size), num(size), num(vbx), num(vby), num(size), num(size))
 	var circles []mdicons.Circle
+	// the two paths the converter leaves out (its skippedPaths table: a white rectangle, a lone move), at a position
+	// derived from the case: a left-out path is not "the first path" — the circles go with the first path that IS
+	// converted (round 5, C20-J: they were handed over before the skip test and lost)
+	skipAt, skipEl := -1, ""
+	if h := len(line) + len(paths); h%3 == 0 {
+		skipAt = (h / 3) % (len(paths) + 1)
+		skipEl = []string{`  <path fill="#fff" d="M16 34h22v4H16z"/>`, `  <path d="M20.36 18"/>`}[(h/9)%2] + "\n"
+	}
 	for i, p := range paths {
+		if i == skipAt {
+			sb.WriteString(skipEl)
+		}
 		attr := ""
 		if p.Opacity != 1 {
 			name := "opacity"
@@ -40,6 +51,9 @@ func monitorParseFile(work string, shard int, line string, size, vbx, vby, outSi
 			fmt.Fprintf(&sb, `  <circle cx="%s" cy="%s" r="%s"/>`+"\n", num(c.Cx), num(c.Cy), num(c.R))
 			circles = append(circles, c)
 		}
+	}
+	if skipAt == len(paths) {
+		sb.WriteString(skipEl)
 	}
 	sb.WriteString("</svg>\n")
 	dir := filepath.Join(work, fmt.Sprintf("svg%d", shard))
